@@ -138,7 +138,7 @@ pub fn enumerate_loose(prog: &Program, weak_sc: bool, strong_rs: bool, op_fences
                 Op::AtomUnsyncLoad { a } => (K::N, None, Some((NaKind::UnsyncLoad, *a))),
                 Op::Spawn { .. } => (K::Sp, None, None),
                 Op::Join { .. } => (K::Jn, None, None),
-                Op::Yield => (K::Nop, None, None),
+                Op::Yield | Op::LoopCounter | Op::StopExploring | Op::Explore => (K::Nop, None, None),
                 other => panic!("R-AX: unsupported op {:?}", other),
             };
             per_thread[t].push(evs.len());
@@ -664,6 +664,9 @@ pub fn supports(prog: &Program) -> bool {
                 | Op::Spawn { .. }
                 | Op::Join { .. }
                 | Op::Yield
+                | Op::LoopCounter
+                | Op::StopExploring
+                | Op::Explore
         )
     })
 }
